@@ -8,7 +8,9 @@
    Device level (what harness/iotrace.so observes: pwrite / fsync on the image):
      dur      content of stable storage, abstracted to the locations the property talks about:
                 blk[b]  version held by filesystem block b (0 = content before recovery)
-                jsb     1 = journal superblock says "log has transactions" (s_start # 0), 0 = empty (s_start = 0)
+                jsb     1 = journal superblock says "log has transactions" (s_start # 0), 0 = empty (s_start = 0),
+                        2 = empty with s_errno set (a failed recovery recorded in the journal superblock)
+                st      1 = the filesystem superblock's s_state records a failed recovery (ERROR_FS set / VALID_FS clear)
                 sb      1 = filesystem superblock requests recovery (INCOMPAT_RECOVER), 0 = flag clear
      pend     writes issued since the last COMPLETED fsync, in program order: [k, b, v]
    The phase of a run as visible from the device is a function of what has been written so far (Cur): "recover" while the
@@ -41,21 +43,24 @@
 EXTENDS Naturals, Integers, Sequences, FiniteSets, TLC
 
 CONSTANTS Blocks, MaxPlan, MaxCrash, SyncInRecover, ReleaseAfterFlush, FlushFsyncs, OpenFsyncs,
+          DevErrorLostOnCrash,  \* named deviation (known finding): a FAILED recovery still empties the journal (s_start = 0, s_errno clear or
+                            \* cleared again) before the failure is durable in the filesystem superblock's s_state; FALSE = repaired design:
+                            \* the failure travels in jsb.s_errno with the release and is cleared only after s_state is durable
           DevSbPiecemeal    \* named deviation (known finding): ext2fs_flush -> write_primary_superblock() sends the changed 16-bit words of the
                             \* primary superblock as SEPARATE pwrites, the checksum word last; TRUE = what the pinned tree does
 
 VARIABLES dur, pend,                        \* device level
-          fin, legal,                       \* the universe: Final per block, versions the log holds per block
-          plan, cache, pc, i, todo,         \* program level
+          fin, legal, rfail,                \* the universe: Final per block, versions the log holds per block, recovery of this log fails
+          plan, cache, pc, i, todo, failed, \* program level (failed: this run's jbd2_journal_recover returned an error)
           image, crashes
 dvars == <<dur, pend>>
-uvars == <<fin, legal>>
-pvars == <<plan, cache, pc, i, todo, image, crashes>>
+uvars == <<fin, legal, rfail>>
+pvars == <<plan, cache, pc, i, todo, failed, image, crashes>>
 vars == <<dvars, uvars, pvars>>
 
 Max(S) == CHOOSE m \in S : \A x \in S : x <= m
 E(k, b, v) == [k |-> k, b |-> b, v |-> v]
-NoImage == [blk |-> <<>>, jsb |-> -1, sb |-> -1]
+NoImage == [blk |-> <<>>, jsb |-> -1, sb |-> -1, st |-> -1]
 
 \* ------------------------------------------------------------------------------------------ device
 All == 1..Len(pend)
@@ -63,18 +68,20 @@ Idx(S, k, b) == {n \in S : pend[n].k = k /\ pend[n].b = b}
 Val(S, k, b, d) == LET I == Idx(S, k, b) IN IF I = {} THEN d ELSE pend[Max(I)].v
 \* stable storage after a crash in which exactly the pending writes with index in S reached the medium
 ImageOf(S) == [blk |-> [b \in DOMAIN dur.blk |-> Val(S, "blk", b, dur.blk[b])],
-               jsb |-> Val(S, "jsb", 0, dur.jsb), sb |-> Val(S, "sb", 0, dur.sb)]
+               jsb |-> Val(S, "jsb", 0, dur.jsb), sb |-> Val(S, "sb", 0, dur.sb), st |-> Val(S, "st", 0, dur.st)]
 Cur == ImageOf(All)                         \* what the program reads back (the OS page cache holds every write)
 PossBlk(b) == {dur.blk[b]} \cup {pend[n].v : n \in Idx(All, "blk", b)}
 PossJsb == {dur.jsb} \cup {pend[n].v : n \in Idx(All, "jsb", 0)}
 PossSb  == {dur.sb} \cup {pend[n].v : n \in Idx(All, "sb", 0)}
+PossSt  == {dur.st} \cup {pend[n].v : n \in Idx(All, "st", 0)}
 
 PhaseOf(img) == IF img.jsb = 1 THEN "recover" ELSE IF img.sb = 1 THEN "released" ELSE "cleared"
 Ph == PhaseOf(Cur)
 \* what a recovery front-end may send to the device in which phase (anything else is not a behaviour of the protocol)
 PhaseAllows(e) ==
    CASE e.k = "blk" -> Ph = "recover" /\ e.b \in DOMAIN legal /\ e.v \in legal[e.b]   \* ReplayWrite: only log content, only before the release
-     [] e.k = "jsb" -> e.v \in {0, 1} /\ (e.v = 1 => Ph = "recover")               \* s_start is never set back to non-zero
+     [] e.k = "jsb" -> e.v \in {0, 1, 2} /\ (e.v = 1 => Ph = "recover")            \* s_start is never set back to non-zero
+     [] e.k = "st"  -> e.v \in {0, 1}                                               \* the s_state word of the primary superblock
      [] e.k = "sb"  -> e.v \in {0, 1} /\ (e.v = 1 => Ph # "cleared")               \* the flag is never set again once cleared
      [] e.k = "sbp" -> TRUE                                                         \* a piece of the primary superblock not holding the flag
      [] OTHER -> FALSE                                                              \* e.g. a write into the log area
@@ -83,42 +90,50 @@ DevFsync == /\ dur' = Cur /\ pend' = <<>>                                       
 
 \* ------------------------------------------------------------------------------------------ the property
 \* running recovery on image img to completion: replays iff the journal superblock still says "not empty"
-RunAgainOf(img) == [blk |-> IF img.jsb = 1 THEN fin ELSE img.blk, jsb |-> 0, sb |-> 0]
+FinSt == IF rfail THEN 1 ELSE 0
+RunAgainOf(img) == [blk |-> IF img.jsb = 1 THEN fin ELSE img.blk, jsb |-> 0, sb |-> 0,
+                    st |-> IF img.jsb = 1 THEN FinSt ELSE IF img.jsb = 2 THEN 1 ELSE img.st]    \* fails again / s_errno moved to s_state / as found
 Complete(img) == img.blk = fin
 \* I1  RunAgain(crash image) = Final of the uninterrupted run -- for every crash image of the current state
-Idempotent == \A b \in DOMAIN dur.blk : (0 \in PossJsb => PossBlk(b) = {fin[b]})
+Idempotent == \A b \in DOMAIN dur.blk : (PossJsb \cap {0, 2} # {} => PossBlk(b) = {fin[b]})
 \* the same, written out over the subsets (model checking only; pend is short there)
 IdempotentSubsets == \A S \in SUBSET All : RunAgainOf(ImageOf(S)).blk = fin
 \* I2  the journal is never marked empty on stable storage before every replayed block is durable
-NeverEmptyBeforeDurable == \A S \in SUBSET All : ImageOf(S).jsb = 0 => Complete(ImageOf(S))
+NeverEmptyBeforeDurable == \A S \in SUBSET All : ImageOf(S).jsb # 1 => Complete(ImageOf(S))
 \* I3  the filesystem keeps requesting recovery until then
 KeepsRequesting == \A b \in DOMAIN dur.blk : (0 \in PossSb => PossBlk(b) = {fin[b]})
 \* needs_recovery cleared durable => journal empty durable
-FlagAfterEmpty == dur.sb = 0 => dur.jsb = 0
+FlagAfterEmpty == dur.sb = 0 => dur.jsb # 1
 \* ... and on every crash image (holds because the flag is cleared after the re-open, and unix_open fsyncs)
-FlagAfterEmptyCrash == 0 \in PossSb => PossJsb = {0}
+FlagAfterEmptyCrash == 0 \in PossSb => 1 \notin PossJsb
+\* a failed recovery is not forgotten: whatever survives a crash, running recovery again ends with the failure recorded in s_state
+\* exactly when the uninterrupted run records it (an image whose journal is plainly empty must already carry it)
+ErrorRemembered == (0 \in PossJsb => PossSt = {FinSt}) /\ (2 \in PossJsb => rfail)
+ErrorRememberedSubsets == \A S \in SUBSET All : RunAgainOf(ImageOf(S)).st = FinSt
+ErrorRememberedOrDev == DevErrorLostOnCrash \/ ErrorRemembered
 \* the crash images are exactly the product of the per-location possibilities
 BlkChoices == {g \in [DOMAIN dur.blk -> UNION {PossBlk(b) : b \in DOMAIN dur.blk}] : \A b \in DOMAIN dur.blk : g[b] \in PossBlk(b)}
 ProductFormExact ==
-   {ImageOf(S) : S \in SUBSET All} = {[blk |-> f, jsb |-> j, sb |-> s] : f \in BlkChoices, j \in PossJsb, s \in PossSb}
+   {ImageOf(S) : S \in SUBSET All} = {[blk |-> f, jsb |-> j, sb |-> s, st |-> t] : f \in BlkChoices, j \in PossJsb, s \in PossSb, t \in PossSt}
 \* the primary superblock is updated atomically: no crash image holds a strict part of one update (its checksum would not match
 \* and no front-end could open the filesystem to run recovery again)
+\* (the s_state word "st" is kept a separate location even when the superblock is written in one piece: that only adds crash images)
 SbIsh == {n \in All : pend[n].k \in {"sb", "sbp"}}
 Torn(S) == \E n \in S \cap SbIsh : \E m \in SbIsh \ S : TRUE
 SbAtomic == \A S \in SUBSET All : ~Torn(S)
 SbAtomicOrDev == DevSbPiecemeal \/ Cardinality(SbIsh) <= 1
 \* a finished run has everything on every crash image (idempotent rewrites may still be pending)
-Finished == PossJsb = {0} /\ PossSb = {0} /\ \A b \in DOMAIN dur.blk : PossBlk(b) = {fin[b]}
+Finished == PossJsb = {0} /\ PossSb = {0} /\ (DevErrorLostOnCrash \/ PossSt = {FinSt}) /\ \A b \in DOMAIN dur.blk : PossBlk(b) = {fin[b]}
 Done == pc = "done" => Finished
-CrashedIdempotent == pc = "crashed" => RunAgainOf(image).blk = fin
+CrashedIdempotent == pc = "crashed" => RunAgainOf(image).blk = fin /\ (DevErrorLostOnCrash \/ RunAgainOf(image).st = FinSt)
 
 \* ------------------------------------------------------------------------------------------ program
 SameLoc(x, e) == x.k = e.k /\ x.b = e.b
 Logical(e) == cache' = {x \in cache : ~SameLoc(x, e)} \cup {e}          \* io_channel_write_blk64 into the cache
 Running == pc \notin {"crashed", "done"}
 WriteBack == /\ Running /\ \E e \in cache : DevWrite(e) /\ cache' = cache \ {e}     \* eviction / flush_cached_blocks of one entry
-             /\ UNCHANGED <<uvars, plan, pc, i, todo, image, crashes>>
-Step(next) == pc' = next /\ UNCHANGED <<uvars, plan, i, todo, image, crashes>>
+             /\ UNCHANGED <<uvars, plan, pc, i, todo, failed, image, crashes>>
+Step(next) == pc' = next /\ UNCHANGED <<uvars, plan, i, todo, failed, image, crashes>>
 Quiet == UNCHANGED dvars
 \* unix_flush: every dirty entry written back (by WriteBack steps), then fsync unless the mutant skips it
 Flush(next) == /\ cache = {} /\ (IF FlushFsyncs THEN DevFsync ELSE Quiet) /\ UNCHANGED cache /\ Step(next)
@@ -133,32 +148,43 @@ CheckJsb == /\ pc = "check" /\ Quiet
 \* nothing to do at all: journal empty and flag clear
 Load    == /\ pc = "load" /\ Quiet /\ UNCHANGED cache
            /\ todo' = (IF Cur.jsb = 1 THEN plan ELSE <<>>)                \* jbd2_journal_recover: if (!sb->s_start) return 0
+           /\ failed' = (Cur.jsb = 1 /\ rfail)                          \* the same log fails the same way every time
            /\ i' = 1 /\ pc' = (IF Cur.jsb = 0 /\ Cur.sb = 0 THEN "final" ELSE "replay")
            /\ UNCHANGED <<uvars, plan, image, crashes>>
 \* do_one_pass(PASS_REPLAY): one logged block copied to its home location (through the cache)
 ReplayWrite == /\ pc = "replay" /\ i <= Len(todo) /\ Quiet /\ Logical(E("blk", todo[i][1], todo[i][2])) /\ i' = i + 1
-               /\ UNCHANGED <<uvars, plan, pc, todo, image, crashes>>
+               /\ UNCHANGED <<uvars, plan, pc, todo, failed, image, crashes>>
 EndReplay == /\ pc = "replay" /\ i > Len(todo) /\ Quiet /\ UNCHANGED cache
              /\ Step(IF ~ReleaseAfterFlush THEN "release" ELSE IF SyncInRecover THEN "sync" ELSE "release")
 SyncFs  == pc = "sync" /\ Flush(IF ReleaseAfterFlush THEN "release" ELSE "close")      \* sync_blockdev -> io_channel_flush
-JsbRelease == /\ pc = "release" /\ Quiet /\ Logical(E("jsb", 0, 0))                       \* jsb->s_start = 0; brelse
+\* jsb->s_start = 0; brelse -- even after a failed recovery (errout: still release(reset = 1)); s_errno is kept as found,
+\* and in the repaired design set when this run failed
+JsbRelease == /\ pc = "release" /\ Quiet
+              /\ Logical(E("jsb", 0, IF Cur.jsb = 2 \/ (failed /\ ~DevErrorLostOnCrash) THEN 2 ELSE 0))
               /\ Step(IF ~ReleaseAfterFlush /\ SyncInRecover THEN "sync" ELSE "close")
 CloseFs == /\ pc = "close" /\ cache = {} /\ Quiet /\ UNCHANGED cache /\ Step("reopen")   \* ext2fs_free -> unix_close: write-back, no fsync
 Reopen  == /\ pc = "reopen" /\ (IF OpenFsyncs THEN DevFsync ELSE Quiet) /\ UNCHANGED cache /\ Step("clear")
 \* *_clear_recover + the check's release(reset = 0) + ext2fs_flush: flag cleared, journal superblock rewritten (order free)
 ClearRecover == /\ pc = "clear" /\ Quiet
-                /\ LET pieces == IF DevSbPiecemeal THEN {E("sb", 0, 0), E("sbp", 0, 0)} ELSE {E("sb", 0, 0)} IN
-                   \/ cache' = {x \in cache : x.k \notin {"sb", "sbp", "jsb"}} \cup pieces \cup {E("jsb", 0, Cur.jsb)}
-                   \/ cache' = {x \in cache : x.k \notin {"sb", "sbp"}} \cup pieces
-                /\ Step("final")
+                /\ LET err    == failed \/ Cur.jsb = 2           \* *_clear_recover(error) / s_errno found by *_check_ext3_journal
+                       pieces == (IF DevSbPiecemeal THEN {E("sb", 0, 0), E("sbp", 0, 0)} ELSE {E("sb", 0, 0)})
+                                 \cup (IF err THEN {E("st", 0, 1)} ELSE {})
+                       keep   == {x \in cache : x.k \notin {"sb", "sbp", "st"}}
+                   IN IF Cur.jsb = 2 /\ ~DevErrorLostOnCrash
+                      THEN cache' = keep \cup pieces /\ Step("errflush")          \* s_state first, s_errno cleared after the flush
+                      ELSE /\ \/ cache' = {x \in keep : x.k # "jsb"} \cup pieces \cup {E("jsb", 0, 0)}
+                              \/ (Cur.jsb # 2 /\ cache' = keep \cup pieces)
+                           /\ Step("final")
+ErrFlush == pc = "errflush" /\ Flush("errclear")
+ErrClear == /\ pc = "errclear" /\ Quiet /\ Logical(E("jsb", 0, 0)) /\ Step("final")
 FinalFlush == pc = "final" /\ Flush("done")                                                \* ext2fs_close -> ext2fs_flush -> io_channel_flush
 
 Crash == /\ Running /\ crashes < MaxCrash
          /\ \E S \in SUBSET All : image' = ImageOf(S)
-         /\ pc' = "crashed" /\ UNCHANGED <<dvars, uvars, plan, cache, i, todo, crashes>>
+         /\ pc' = "crashed" /\ UNCHANGED <<dvars, uvars, plan, cache, i, todo, failed, crashes>>
 RunAgain == /\ pc = "crashed"
             /\ dur' = image /\ pend' = <<>>
-            /\ cache' = {} /\ pc' = "open" /\ i' = 1 /\ todo' = <<>> /\ image' = NoImage /\ crashes' = crashes + 1
+            /\ cache' = {} /\ pc' = "open" /\ i' = 1 /\ todo' = <<>> /\ failed' = FALSE /\ image' = NoImage /\ crashes' = crashes + 1
             /\ UNCHANGED <<uvars, plan>>
 
 \* ------------------------------------------------------------------------------------------ universe
@@ -168,15 +194,15 @@ FinalOfPlan(p) == [b \in Blocks |-> LET I == {n \in 1..Len(p) : p[n][1] = b} IN 
 LegalOfPlan(p) == [b \in Blocks |-> {p[n][2] : n \in {m \in 1..Len(p) : p[m][1] = b}}]
 
 Init == /\ plan \in Plans
-        /\ fin = FinalOfPlan(plan) /\ legal = LegalOfPlan(plan)
-        /\ dur = [blk |-> [b \in Blocks |-> 0], jsb |-> 1, sb |-> 1] /\ pend = <<>>
-        /\ cache = {} /\ pc = "open" /\ i = 1 /\ todo = <<>> /\ image = NoImage /\ crashes = 0
+        /\ fin = FinalOfPlan(plan) /\ legal = LegalOfPlan(plan) /\ rfail \in BOOLEAN
+        /\ dur = [blk |-> [b \in Blocks |-> 0], jsb |-> 1, sb |-> 1, st |-> 0] /\ pend = <<>>
+        /\ cache = {} /\ pc = "open" /\ i = 1 /\ todo = <<>> /\ failed = FALSE /\ image = NoImage /\ crashes = 0
 Next == \/ Open \/ CheckJsb \/ Load \/ ReplayWrite \/ EndReplay \/ SyncFs \/ JsbRelease \/ CloseFs \/ Reopen
-        \/ ClearRecover \/ FinalFlush \/ WriteBack \/ Crash \/ RunAgain
+        \/ ClearRecover \/ ErrFlush \/ ErrClear \/ FinalFlush \/ WriteBack \/ Crash \/ RunAgain
 Spec == Init /\ [][Next]_vars
 
-TypeOK == /\ pc \in {"open", "check", "load", "replay", "sync", "release", "close", "reopen", "clear", "final", "done", "crashed"}
-          /\ dur.jsb \in {0, 1} /\ dur.sb \in {0, 1} /\ crashes \in 0..MaxCrash
+TypeOK == /\ pc \in {"open", "check", "load", "replay", "sync", "release", "close", "reopen", "clear", "errflush", "errclear", "final", "done", "crashed", "trace"}
+          /\ dur.jsb \in {0, 1, 2} /\ dur.sb \in {0, 1} /\ dur.st \in {0, 1} /\ crashes \in 0..MaxCrash
           /\ \A x \in cache : \A y \in cache : SameLoc(x, y) => x = y
 \* the program never asks the device for something the device-level protocol (PhaseAllows) forbids: every dirty cache
 \* entry can be written back.  (A disabled WriteBack would silently prune behaviours instead of failing.)
